@@ -46,7 +46,7 @@ Definition check_case (c : case) : N :=
     let routed_corr := forallb (fun s => Bool.eqb (snd s) (expected_routed a d (fst s))) routed in
     (* every declared operation of a validated API was looked up, and has its route *)
     let routed_prop := match err with
-                       | None => list_eqb Nat.eqb (map fst routed) (seq 0 (length (g_ops d))) && forallb snd routed
+                       | None => all_routed (length (g_ops d)) routed
                        | Some _ => true
                        end in
     let served_corr := forallb (fun s => let '(i, ct, k) := s in Nat.eqb k (expected_outcome a d i ct)) served in
